@@ -610,6 +610,97 @@ def gen(tier, rng, shard, nshards):
             tag = "M" if bad else f"R:{key.hex()}:{len(pre)}"
             yield "ffx", f"ffx {C.hx(payload)} 8192 {tag} {C.hx(C.rbytes(rng, 4))}"
 
+    # ---- ff / wb: protected areas whose marker window, beacon area or guard area straddles block boundaries
+    # (a chunked re-implementation of the scan must overlap its chunks by ≥ 11 bytes and re-seek for the two big reads).
+    # anchor ≡ r (mod 2^n), r ∈ {0..11} ∪ {2^n-11..2^n-1}, anchor ∈ {guard_config_offset, beacon_config_offset, end of guard area}
+    def residues(n):
+        return list(range(0, 12)) + list(range(2 ** n - 11, 2 ** n))
+
+    def place(n, r, anchor, q=None):
+        """length of the prefix so that the chosen anchor offset is ≡ r (mod 2^n), at least one block into the file"""
+        blk = 2 ** n
+        delta = {"gco": BSIZE, "bco": 0, "gend": BSIZE + GSIZE}[anchor]
+        q = q if q is not None else 1
+        while q * blk + r - delta < 0 or q * blk + r < blk:
+            q += 1
+        return q * blk + r - delta
+
+    def big_filler(n):
+        return bytes(n) if rng.random() < 0.2 else rng.randbytes(n)
+
+    plan = []
+    if thorough:
+        for n in (12, 13, 16, 17, 20):
+            for r in residues(n):
+                for anchor in ("gco", "bco", "gend"):
+                    plan.append((n, r, anchor, rng.choice([1, 1, 2, 3]) if n <= 16 else 1))
+        for _ in range(40):  # other block sizes a refactoring might pick: arbitrary positions in larger files
+            plan.append((0, rng.randrange(20000, 400000), "gco", 0))
+    else:
+        for n in (13, 16):
+            for r in residues(n):
+                plan.append((n, r, "gco", 1))
+            for r in rng.sample(residues(n), 4):
+                plan.append((n, r, rng.choice(["bco", "gend"]), 1))
+        for n, cnt in ((12, 4), (17, 4), (20, 2)):
+            for r in rng.sample(residues(n), cnt):
+                plan.append((n, r, rng.choice(["gco", "gco", "bco", "gend"]), 1))
+    for n, r, anchor, q in plan:
+        if not mine():
+            continue
+        key = make_key(rng, rng.choice([2, 5, 11, 15, 16]), rng.choice(["host", "bytes"]))
+        cfg, gc, ar = area(rng, key, rng.choice(OPT_SUBSETS), nonzero=rng.choice([60, 200, 700]))
+        npre = place(n, r, anchor, q) if n else r - BSIZE
+        npost = rng.choice([0, 3, 40, 5000]) if n < 20 else rng.choice([0, 9])
+        c = ff(big_filler(npre) + ar + big_filler(npost), f"R:{key.hex()}:{npre}")
+        if c:
+            yield c
+
+    # ---- wb: several areas and decoy markers, each sitting on a block boundary (all records are observed)
+    for mi in range(30 if thorough else 4):
+        if not mine():
+            continue
+        n = rng.choice([13, 16] if not thorough else [12, 13, 16, 16, 17])
+        blk = 2 ** n
+        rs = residues(n)
+        key1, key2 = make_key(rng, rng.choice([4, 15]), "host"), make_key(rng, 9, "bytes")
+        _, _, ar1 = area(rng, key1, rng.choice(OPT_SUBSETS), nonzero=200, checksum_delta=rng.choice([0, 0, 4]))
+        _, _, ar2 = area(rng, key2, rng.choice(OPT_SUBSETS), nonzero=60)
+        buf = bytearray()
+
+        def pad_to(off):
+            assert off >= len(buf), (off, len(buf))
+            buf.extend(big_filler(off - len(buf)))
+
+        def boundary(delta, gap=0):
+            """smallest offset ≥ len(buf) + gap of the form q·2^n + r − delta, r a boundary residue, q ≥ 1"""
+            r = rng.choice(rs)
+            q = 1
+            while q * blk + r - delta < len(buf) + gap:
+                q += 1
+            return q * blk + r - delta
+
+        # decoy marker (12 bytes, marker relation holds, garbage behind it) with its guard offset on a boundary residue
+        pad_to(boundary(6) if rng.random() < 0.8 else 100)
+        buf.extend(fake_marker(rng))
+        # first area: guard_config_offset on a boundary residue of a later block
+        pad_to(boundary(BSIZE))
+        buf.extend(ar1)
+        # decoy directly behind, then the second area on another boundary
+        buf.extend(big_filler(rng.choice([0, 1, 7])))
+        buf.extend(fake_marker(rng))
+        pad_to(boundary(rng.choice([BSIZE, 0, BSIZE + GSIZE])))
+        buf.extend(ar2)
+        buf.extend(big_filler(rng.choice([0, 12, 300])))
+        if rng.random() < 0.5:
+            pad_to(boundary(6))
+            buf.extend(fake_marker(rng))
+            buf.extend(big_filler(rng.choice([0, 5, 2100])))
+        payload = bytes(buf)
+        if clean(payload):
+            yield "wb", f"wb {C.hx(payload)} 8192"
+            yield "ff", f"ff {C.hx(payload)} 8192 U"
+
     # ---- ff: configurations whose zero padding does not dominate (recovery not promised; correspondence only)
     for _ in range((24 if thorough else 4) // 1):
         if not mine():
